@@ -449,8 +449,12 @@ pub fn classify(prop: &str, group: &Group, input: &Db, st: &EvalStats, summaries
       "C08" => {
          // does this input distinguish the hygienic reading from the capturing one?
          let captured = vcore::xform::expand_macros_unhygienic(&group.ref_prog);
-         let distinguishes = match (eval::eval(&captured, input, EvalOpts::default()), eval::eval(&group.ref_prog, input, EvalOpts::default())) {
-            (Ok(a), Ok(b)) => a.db != b.db,
+         // (the capturing reading may be ill-typed, e.g. a macro-local `let v = 1` captured as an Option-valued argument:
+         // the evaluator then panics, which also tells the two readings apart)
+         let cap = std::panic::catch_unwind(std::panic::AssertUnwindSafe(|| eval::eval(&captured, input, EvalOpts::default())));
+         let distinguishes = match (cap, eval::eval(&group.ref_prog, input, EvalOpts::default())) {
+            (Ok(Ok(a)), Ok(b)) => a.db != b.db,
+            (Err(_), Ok(_)) => true,
             _ => false,
          };
          if distinguishes {
@@ -670,13 +674,16 @@ fn run_group(
             if failures.is_empty() {
                Ok(())
             } else {
+               if std::env::var("VERIF_DEBUG_FAIL").is_ok() {
+                  eprintln!("DEBUG case {cn} input {} failures {}", show_db(&input), serde_json::to_string(&failures).unwrap_or_default());
+               }
                failed.store(true, Ordering::Relaxed);
                Err(TestCaseError::fail("mismatch"))
             }
          },
       }
    });
-   if let Err(TestError::Fail(_, raw)) = run {
+   if let Err(TestError::Fail(reason, raw)) = run {
       let input = inputs::realize(&raw, &group.ref_prog);
       // re-run on the shrunk input to collect details (repeat a few times for schedule dependent failures)
       let mut failures = vec![];
@@ -689,6 +696,11 @@ fn run_group(
          }
       }
       let shrunk = !failures.is_empty();
+      if failures.is_empty() && !format!("{reason}").contains("mismatch") {
+         // the case failed with a panic inside the harness (reference evaluator, classification), not with a mismatch
+         result.lock().unwrap().infra_errors.push(format!("harness panic on {}: {reason}\n{}\ninput: {}", group.base, text, show_db(&input)));
+         return;
+      }
       if failures.is_empty() {
          failures.push(Failure {
             variant: "?".into(),
@@ -697,7 +709,7 @@ fn run_group(
             perturb_seed: 0,
             kind: "unreproduced".into(),
             mismatches: vec![],
-            panic_msg: Some("failure did not reproduce on the shrunk input (schedule dependent)".into()),
+            panic_msg: Some(format!("failure did not reproduce on the shrunk input (schedule dependent, or a panic in the harness); proptest reason: {reason}")),
          });
       }
       let rep = ViolationReport {
